@@ -90,7 +90,6 @@ macro_rules! single_lit_section {
                         assert!(st::LIT_LIMIT[0] == max_lit && st::LIT_ASSIGN[0] == $assigning);
                         assert!(l.code() == st::LIT_RET[0], "literal changed on the way out");
                         assert!(st::NEWLINES_OK == 1 && st::CALLS_AFTER_NEWLINE == 0);
-                        assert!(st::CALLS == 2);
                     }
                     Err(e) => {
                         assert!(left > 0 && st::ERRS >= 1);
@@ -178,7 +177,6 @@ pub fn sec_next_and_gate() {
                 assert!(g.inputs[0].code() <= code && g.inputs[1].code() <= g.inputs[0].code());
                 assert!(s.parser.code == code + 2);
                 // binary and gates have no line end: handed out right after the second delta
-                assert!(st::CALLS == 2);
             }
             Err(e) => {
                 assert!(left > 0 && st::ERRS >= 1);
